@@ -369,6 +369,9 @@ def x8(rep, w):
     stores = field_stores(f, fld)
 
     def is_raise(s_):
+        rr0 = s_['r']
+        if rr0.get('rv') == 'bin' and rr0['op'].startswith('Add') and (op_const(rr0['b']) or {}).get('v') == 1 and fld in operand_fields(f, org, rr0['a']):
+            return True     # optimised builds: `field = saved + 1` without the overflow-check temporary
         k = op_const(s_['r'].get('o', {}) or {})
         if k is not None:
             return k.get('v') == 1
@@ -384,7 +387,7 @@ def x8(rep, w):
                         return True
         return False
     sets = [bi for bi, s_ in stores if is_raise(s_)]
-    restores = [bi for bi, s_ in stores if not is_raise(s_) and op_const(s_['r'].get('o', {}) or {}) is None and fld in operand_fields(f, org, s_['r'].get('o', {}))
+    restores = [bi for bi, s_ in stores if not is_raise(s_) and s_['r'].get('rv') == 'use' and op_const(s_['r'].get('o', {}) or {}) is None and fld in operand_fields(f, org, s_['r'].get('o', {}))
                 and not any('#bin' in q for q in org.get((op_place(s_['r'].get('o', {}) or {}) or {}).get('l'), ()))]
     r.check(len(stores) == 2 and len(sets) == 1 and len(restores) == 1, 'try_statement writes Compiler.%s twice: raised, then the saved previous value' % fld,
             'try_statement writes Compiler.%s %d times (%d x raised, %d x saved value)' % (fld, len(stores), len(sets), len(restores)), f.loc())
